@@ -121,3 +121,6 @@ func H11c_collateral_auth64()    { h11(1, 64, false, true) }
 func H11d_revocation_auth32_nul() { h11(2, 32, true, false) }
 func T11e_collateral_auth200()   { h11(1, 200, true, true) }
 func T11f_revocation_auth1()     { h11(2, 1, false, true) }
+
+// thorough tier: used options value at the revocation level
+func T11i_revocation_used_options() { h11u(2, 32, false, false, true) }
